@@ -40,6 +40,7 @@ from ngo.utils.ast import (
     is_predicate,
     largest_subset,
     replace_simple_assignments,
+    transform_ast,
 )
 from ngo.utils.globals import UniqueNames
 
@@ -113,6 +114,16 @@ class SymmetryTranslator:
                 if sym.nstrict_neq:
                     improve = False
 
+            if improve and len(symmetries) > 1:
+                # several symmetries share compared variables: ordering the variables of the first one is only
+                # correct if exchanging its (two) literals maps every other symmetry onto itself
+                for index, sym in enumerate(symmetries):
+                    if sym.strict_neq and self._exchange_is_symmetry(sym, symmetries[:index] + symmetries[index + 1 :]):
+                        symmetries = [sym]
+                        break
+                else:
+                    improve = False
+
             if improve:
                 # Improve symmetries by changing 1 set of variable comparisons
                 sym = symmetries[0]
@@ -126,6 +137,24 @@ class SymmetryTranslator:
                     self._add_lits.add(
                         Literal(LOC, Sign.NoSign, Comparison(lhs, [Guard(ComparisonOperator.LessThan, rhs)]))
                     )
+
+        @staticmethod
+        def _exchange_is_symmetry(
+            sym: "SymmetryTranslator.Symmetry", others: list["SymmetryTranslator.Symmetry"]
+        ) -> bool:
+            """true if exchanging the two literals of sym leaves all other symmetries unchanged"""
+            if len(sym.literals) != 2:
+                return False
+            swap: dict[AST, AST] = {}
+            for lhs, rhs in zip(sym.literals[0].atom.symbol.arguments, sym.literals[1].atom.symbol.arguments):
+                if lhs != rhs:
+                    swap[lhs] = rhs
+                    swap[rhs] = lhs
+            for other in others:
+                swapped = [transform_ast(lit, "Variable", lambda var: swap.get(var, var)) for lit in other.literals]
+                if sorted(swapped) != sorted(other.literals):
+                    return False
+            return True
 
         def _create_count(self, symmetry: "SymmetryTranslator.Symmetry", rules: list[AST]) -> list[AST]:
             """given a symmetry, create the representive count aggregate and projector and return it
